@@ -4,7 +4,8 @@
 
    Decomposition of the API into atomic actions (openapi.go):
      SetSchema                          one action (lock held throughout)
-     IsNamespaceScoped (not precomputed) isInitSchemaNeeded... (locked) ; [initSchema (locked)] ; map read (UNLOCKED)
+     IsNamespaceScoped (not precomputed) isInitSchemaNeeded... (locked) ; [initSchema (locked)] ; map read (read-locked
+                                        since /repo db2770f; a separate critical section, hence a separate action)
      SchemaForResourceType              initSchema (locked) ; map read (unlocked)
    A precomputed kind is answered from the immutable table without touching the state. *)
 From KV Require Import Base.Prelude Glob.OpenApiState.
